@@ -293,6 +293,7 @@ func permOf(seed uint64, salt uint64, n int) []int {
 func (c12) Exec(plan any, c *Ctx) *Violation {
 	observeUnknownAPI = true
 	p := plan.(*C12Plan)
+	pokeThisRun = p.Perm%3 == 0
 	mws := make([]*c12mw, len(p.MWs))
 	// ---- build
 	for i, spec := range p.MWs {
